@@ -246,6 +246,20 @@ void h_unalign_pow2(void) {
 }
 #endif
 
+#ifdef HARNESS_h_fast_divide
+/* C12/C16: the heap walk's division by the block size (magic multiply + shift) is exact for every offset in a page */
+#include "heap.c"
+void h_fast_divide(void) {
+  size_t bs = _mi_bin_size(BIN);
+  uint64_t magic; size_t shift;
+  mi_get_fast_divisor(bs, &magic, &shift);
+  size_t n = nd_size();
+  ASSUME(n < ((size_t)1 << 16) * bs && n < ((size_t)1 << 32));        /* offsets inside a page: < 2^16 blocks, code asserts n <= UINT32_MAX */
+  CHECK(mi_fast_divide(n, magic, shift) == n / bs, "mi_fast_divide(n) == n / block_size for every offset in a page");
+  WITNESS("end");
+}
+#endif
+
 #ifdef HARNESS_h_helpers
 void h_helpers(void) {
   uintptr_t x = nd_u64();
